@@ -1042,16 +1042,20 @@ static int responseHandler(KSI_HighAvailabilityService *has, KSI_Config_Callback
 				break;
 
 			case KSI_ASYNC_STATE_RESPONSE_RECEIVED:
-				handleReqResponse(has, respHndl);
+				res = handleReqResponse(has, respHndl);
 				break;
 
 			case KSI_ASYNC_STATE_ERROR:
-				handleErrorResponse(has, respHndl);
+				res = handleErrorResponse(has, respHndl);
 				break;
 
 			default:
 				/* Do nothing! */
 				break;
+		}
+		if (res != KSI_OK) {
+			KSI_pushError(has->ctx, res, NULL);
+			goto cleanup;
 		}
 
 		KSI_AsyncHandle_free(respHndl);
